@@ -204,7 +204,7 @@ def strat_column(draw):
         "index": draw(_index_strategy(n)),
         "pred": draw(_pred_strategy(dtype)),
         "ignore_na": draw(st.sampled_from([True, False, True])),
-        "n": draw(st.sampled_from([None, 1, 1, 2, 3])),
+        "n": draw(st.sampled_from([None, 1, 1, 2, 3, 0])),  # (0: "the first no failure cases" - still a failure)
         "entry": draw(st.sampled_from(["column", "series"])),
         "vform": draw(st.sampled_from(["native", "map", "ew"])),
         "lazy": draw(st.booleans()),
@@ -376,7 +376,7 @@ def eval_column(case):
                 continue
             if not _sub_multiset(got, exp_pairs):
                 ev.add("nfc:cases-not-subset", {"full": exp_pairs, "observed": got, "n": n})
-            elif exp_pairs and not (1 <= len(got) <= n):
+            elif exp_pairs and not (min(1, n) <= len(got) <= n):
                 ev.add("nfc:wrong-count", {"full": len(exp_pairs), "observed": len(got), "n": n})
             elif exp_pairs and len(exp_pairs) <= n and _msorted(got) != _msorted(exp_pairs):
                 ev.add("nfc:truncated-below-n", {"full": exp_pairs, "observed": got, "n": n})
